@@ -48,6 +48,13 @@ def _build(tier="quick"):
 
     c_analysis.register(reg)
     c_analysis.register_representation(reg)
+    from contracts import c_definitions
+
+    c_definitions.register(reg)
+    c_definitions.register_lincomb(reg)
+    from contracts import c_generators
+
+    c_generators.register(reg)
     from contracts import c_formatter
 
     c_formatter.register(reg)
